@@ -43,6 +43,18 @@ template <class T> void put(std::string& s, const T& x) {
     else { std::string t = demangle(typeid(T).name()); unprinted_types().insert(t); s += "<unprinted:" + t + ">"; }
 }
 
+// ---- getters that return a pointer to a fixed-size array inside the object: rendered through a (name -> length) table
+inline size_t fixed_array_len(const std::string& name) {
+    static const std::map<std::string, size_t> t = {{"BootP.file", 128}, {"BootP.sname", 64}, {"DHCP.file", 128}, {"DHCP.sname", 64}, {"Dot11BlockAck.bitmap", (size_t)Tins::Dot11BlockAck::bitmap_size},
+        {"RC4EAPOL.key_iv", (size_t)Tins::RC4EAPOL::key_iv_size}, {"RC4EAPOL.key_sign", (size_t)Tins::RC4EAPOL::key_sign_size}, {"RSNEAPOL.id", (size_t)Tins::RSNEAPOL::id_size}, {"RSNEAPOL.key_iv", (size_t)Tins::RSNEAPOL::key_iv_size},
+        {"RSNEAPOL.mic", (size_t)Tins::RSNEAPOL::mic_size}, {"RSNEAPOL.nonce", (size_t)Tins::RSNEAPOL::nonce_size}, {"RSNEAPOL.rsc", (size_t)Tins::RSNEAPOL::rsc_size}};
+    auto it = t.find(name); return it == t.end() ? 0 : it->second;
+}
+template <class T> void put_named(std::string& s, const char* name, const T& x) {
+    if constexpr (std::is_same<T, const uint8_t*>::value || std::is_same<T, uint8_t*>::value) { size_t n = fixed_array_len(name); if (n && x) { s += "arr:"; s += hex(x, n, 4096); return; } }
+    put(s, x);
+}
+
 // ---- one accessor call with exception typing -------------------------------------------------
 template <class F> inline void get_one(View& v, const char* name, u64& cnt, F&& f) {
     ++cnt; std::string s;
